@@ -206,7 +206,13 @@ class Tr:
 
     def binop(s, n):
         return '(%s %s %s)' % (s.x(n.operand1), n.operator, s.x(n.operand2))
-    x_AddNode = x_SubNode = x_MulNode = x_DivNode = x_IntBinopNode = x_MatMultNode = binop
+    x_AddNode = x_SubNode = x_MulNode = x_IntBinopNode = x_MatMultNode = binop
+
+    def x_DivNode(s, n):
+        if n.operator == '/' and s.cdiv and s.cdiv[-1]:
+            # cdivision(True): no ZeroDivisionError; concrete operands follow C (inf / nan), symbolic ones the division policy of the run
+            return '_sx_.cdiv(%s, %s)' % (s.x(n.operand1), s.x(n.operand2))
+        return s.binop(n)
     x_BitwiseOrNode = x_BitwiseAndNode = x_BitwiseXorNode = binop
 
     def x_PowNode(s, n):
